@@ -58,7 +58,14 @@ def _patches(mesh):
     c = np.asarray(mesh.coord, float)[bn]
     p = c[:, 0] + 0.31 * c[:, 1]
     lo, hi = p.min(), p.max()
-    return bn[p <= lo + 0.3 * (hi - lo)], bn[p >= hi - 0.3 * (hi - lo)]
+    fixed, loaded = bn[p <= lo + 0.3 * (hi - lo)], bn[p >= hi - 0.3 * (hi - lo)]
+    if fixed.size < 2:
+        # one clamped node leaves the rigid rotation about it to the single prescribed component: the two lowest nodes instead
+        fixed = bn[np.argsort(p, kind="stable")[:2]]
+        loaded = np.setdiff1d(loaded, fixed)
+        if loaded.size == 0:
+            raise Inconclusive("mesh too small for a supported and a loaded patch")
+    return fixed, loaded
 
 
 class Adapter:
@@ -98,6 +105,15 @@ class Adapter:
             raise KeyError(k)
         return simu
 
+    def set_algo(self, simu, which):
+        """steady (elliptic) or the transient scheme make() selects"""
+        if which == "steady":
+            simu.Solver_Set_Elliptic_Algorithm()
+        elif self.kind == "thermal":
+            simu.Solver_Set_Parabolic_Algorithm(0.1, 0.5)
+        else:
+            simu.Solver_Set_Hyperbolic_Algorithm(0.2, algo=AlgoType(self.case.get("algo", "newmark")), alpha=0.1)
+
     # -- one load step ----------------------------------------------------------------------
     def step(self, simu, lam):
         k = self.kind
@@ -127,11 +143,17 @@ class Adapter:
                 simu.add_dirichlet(fixed, [0.0, 0.0], unk)
                 simu.add_dirichlet(loaded, [0.05 * lam], ["x"])
         try:
-            simu.Solve()
+            if k == "phasefield" and self.case.get("conv") is not None:
+                simu.Solve(convOption=int(self.case["conv"]))  # stopping rules that do not evaluate the energies
+            else:
+                simu.Solve()
         except Exception as e:
             if "converge" in str(e).lower() or "det(F)" in str(e):
                 raise Inconclusive("load step did not converge")
             raise
+        if not np.all(np.isfinite(np.asarray(simu._Get_u_n(simu.problemType), float))):
+            # a singular step (the solver warns and returns NaN) is not a converged step: nothing to save or restore
+            raise Inconclusive("load step singular (non-finite solution)")
 
     # -- observation ------------------------------------------------------------------------
     def fields(self, simu):
@@ -226,6 +248,22 @@ def histories(draw, kinds=KINDS):
         rec2 = draw(gm.recipes2d(types=SMALL, affine_ok=False, perm_ok=False, hmin=7, hmax=9, nmax=4))
         ops = [dict(op="solve", lam=0.5), dict(op="save"), dict(op="replace_mesh", recipe=rec2), dict(op="solve", lam=0.75), dict(op="save"),
                dict(op="save_load", to="own"), dict(op="folder", to="B"), dict(op="save_load", to="folder")]
+    elif kind in ("thermal", "elastic_dyn") and draw(st.integers(0, 3)) == 0:
+        # scenario: a steady (elliptic) first iteration, then transient steps; the steady iteration is restored under the
+        # transient algorithm and the first transient step is computed again from it
+        ops = [dict(op="algo", to="steady"), dict(op="solve", lam=0.5), dict(op="save"), dict(op="algo", to="transient")]
+        for k in range(draw(st.integers(2, 3))):
+            ops += [dict(op="solve", lam=0.5 + 0.25 * (k + 1)), dict(op="save")]
+        ops += [dict(op=draw(st.sampled_from(["continue", "continue", "set_iter"])), i=0, addr="index")]
+    elif kind in ("phasefield", "inelastic") and draw(st.integers(0, 3)) == 0:
+        # scenario: loading up to a peak, then unloading, every step saved; the iterations saved at and just after the peak
+        # (where the internal variables stop following the load) are restored and the next step is computed again
+        peak = draw(st.sampled_from([1.5, 2.0]))
+        ops = []
+        for lam in (0.5, 1.0, peak, 0.75, 0.25):
+            ops += [dict(op="solve", lam=lam), dict(op="save")]
+        ops += [dict(op="set_iter", i=3, addr="index"), dict(op="continue", i=3, addr="index"), dict(op="continue", i=2, addr="index"),
+                dict(op="set_iter", i=4, addr="index")]
     elif draw(st.integers(0, 4)) == 0:
         # scenario: a monitoring loop that looks at the iteration it has just stored as "the last one", in memory or on disk
         how = draw(st.sampled_from(["get_results", "result_iter", "set_iter"]))
@@ -243,6 +281,12 @@ def histories(draw, kinds=KINDS):
         case["pfsolver"] = draw(st.sampled_from(["History", "HistoryDamage", "BoundConstrain"]))
         case["regu"] = draw(st.sampled_from(["AT1", "AT2"]))
         case["split"] = draw(st.sampled_from(["Miehe", "Amor", "Bourdin"]))
+        case["conv"] = draw(st.sampled_from([None, None, 0, 3]))
+        if any(o.get("addr") == "index" and o["op"] == "continue" and o["i"] == 3 for o in ops[:16]) and draw(st.booleans()):
+            # the peak / unloading scenario with the combination under which the history field is not refreshed by an
+            # energy evaluation before it is stored
+            case["pfsolver"] = "History"
+            case["conv"] = draw(st.sampled_from([0, 3]))
     return case
 
 
@@ -262,6 +306,12 @@ def _equal_fields(rec, got, exp, oracle, msg, sig, exact=True):
             rec.close(g - v, np.abs(v).max() + 1e-9, 1e-10, oracle, f"{msg}: '{k}'", **sig)
 
 
+def _stored(S, r, kind):
+    """the saved fields a stored iteration must contain: all of them, except the rates of an iteration saved under the
+    steady algorithm (and of thermal iterations), which are compared only when the stored iteration has them"""
+    return {k: v for k, v in S["fields"].items() if k in r or not (kind == "thermal" or S.get("steady"))}
+
+
 def run_history(case, rec):
     kind = case["kind"]
     sig = dict(kind=kind)
@@ -279,6 +329,7 @@ def run_history(case, rec):
         events_since_save = 0
         nontrivial = False
         steps_log = []  # lam of every solve, for 'continue'
+        steady = False  # the steady (elliptic) algorithm is selected
         for op in case["ops"]:
             name = op["op"]
             sig["op"] = name
@@ -308,7 +359,7 @@ def run_history(case, rec):
                 # results are recorded once the step is committed (history-dependent materials commit at Save_Iter)
                 res = ad.results(simu)
                 _equal_fields(rec, ad.fields(simu), fields, "save_iter_pure", "Save_Iter changed the current fields", sig)
-                snaps.append(dict(fields=fields, results=res, mesh=_mesh_sig(simu.mesh), next=None, is_current=True,
+                snaps.append(dict(fields=fields, results=res, mesh=_mesh_sig(simu.mesh), next=None, is_current=True, steady=steady,
                                   where="disk" if simu.folder else "memory", extra=float(last_lam) if extra else None))
                 rec.label("saved:" + snaps[-1]["where"])
                 events_since_save = 0
@@ -316,6 +367,10 @@ def run_history(case, rec):
             elif name == "folder":
                 simu.folder = dirs[op["to"]]
                 events_since_save += 1
+            elif name == "algo":
+                ad.set_algo(simu, op["to"])
+                steady = op["to"] == "steady"
+                rec.label("algo:" + op["to"])
             elif name == "replace_mesh":
                 m2 = _mesh2d(op["recipe"]) if kind != "beam" else None
                 if m2 is None:
@@ -341,7 +396,7 @@ def run_history(case, rec):
                     before = ad.fields(simu)
                     mesh_before = _mesh_sig(simu.mesh)
                     r = simu.Get_results(i)
-                    _equal_fields(rec, r, {k: v for k, v in S["fields"].items() if k in r or kind != "thermal"}, "get_results",
+                    _equal_fields(rec, r, _stored(S, r, kind), "get_results",
                                   f"Get_results({i}) [{S['where']}]", sig)
                     if S.get("extra") is not None:
                         rec.require(float(r.get("load_level", np.nan)) == S["extra"], "get_results_extra",
@@ -406,7 +461,7 @@ def run_history(case, rec):
                 _equal_fields(rec, ad.fields(loaded), cur_fields, "load_fields", "Load_Simu: current fields", sig)
                 for j, S in enumerate(snaps):
                     r = loaded.Get_results(j)
-                    _equal_fields(rec, r, {k: v for k, v in S["fields"].items() if k in r or kind != "thermal"}, "load_history",
+                    _equal_fields(rec, r, _stored(S, r, kind), "load_history",
                                   f"Load_Simu: stored iteration {j} [{S['where']}]", sig)
                 # every stored iteration can be restored in the loaded simulation, whatever mesh it was saved on
                 for j in list(range(len(snaps) - 1)) + [len(snaps) - 1]:
@@ -453,12 +508,12 @@ def run_history(case, rec):
             if snaps and case.get("audit", "each") == "each":
                 j = (len(case["ops"]) + len(snaps)) % len(snaps)
                 r = simu.Get_results(j)
-                _equal_fields(rec, r, {k: v for k, v in snaps[j]["fields"].items() if k in r or kind != "thermal"}, "stored_unaltered",
+                _equal_fields(rec, r, _stored(snaps[j], r, kind), "stored_unaltered",
                               f"{kind}: stored iteration {j} [{snaps[j]['where']}] changed after '{name}'", sig)
         if case.get("audit", "each") == "end":
             for j in range(len(snaps)):
                 r = simu.Get_results(j)
-                _equal_fields(rec, r, {k: v for k, v in snaps[j]["fields"].items() if k in r or kind != "thermal"}, "stored_unaltered",
+                _equal_fields(rec, r, _stored(snaps[j], r, kind), "stored_unaltered",
                               f"{kind}: stored iteration {j} [{snaps[j]['where']}] changed by the end of the history", sig)
         rec.label("audit:" + case.get("audit", "each"))
         rec.nontrivial(nontrivial)
